@@ -39,7 +39,7 @@ ASSUMPTIONS = [
     "the scheduler does not model locks: cm_colors takes none; a stall is a HARNESS-ERROR, never a verdict",
     "text results embedding the sandbox path are normalised to <SBX>",
 ]
-PROBES = ["H_runs", "H_ops", "H_probes_after_change", "H_cli_ops", "H_bulk_ops", "H_show_save_ops", "H_slot_reuse", "H_repeat_same_op",
+PROBES = ["H_runs", "H_ops", "H_probes_after_change", "H_cli_ops", "H_bulk_ops", "H_show_save_ops", "H_slot_reuse", "H_repeat_same_op", "H_alias_family_ops",
           "T_runs", "T_threads", "T_ops", "T_steps", "T_switches", "T_hot_line_hits", "T_switch_in_optimisation", "T_mode_different",
           "T_mode_same", "T_mode_shared_object", "T_runs_with_switch_inside_call", "P_runs", "P_ops", "P_interpreters"]
 
@@ -136,7 +136,21 @@ def generate(rseed, tier, idx):
                     if g.random() < 0.15:
                         op["show"] = True
                 ops.append(op)
-        ops = [o for o in ops if not (o["op"] == "newpair" and False)]
+        if g.random() < 0.4:  # members of one alias family at different points of the history, same settings
+            fam = gen.alias_family(g)
+            t0, b0, large0 = _pair(g)
+            role = g.choice(("t", "t", "b"))
+            mode, vr = g.choice((0, 1, None)), g.random() < 0.3
+            kind = g.choice(("make", "make", "pair", "bulk"))
+            for mem in fam:
+                tt, bb = (enc(mem), b0) if role == "t" else (t0, enc(mem))
+                if kind == "make":
+                    op = {"op": "make", "t": tt, "b": bb, "large": large0, "mode": mode, "vr": vr, "alias": True}
+                elif kind == "pair":
+                    op = {"op": "pair", "t": tt, "b": bb, "large": large0, "alias": True}
+                else:
+                    op = {"op": "bulk", "pairs": [[tt, bb]], "mode": mode, "vr": vr, "alias": True}
+                ops.insert(g.randrange(len(ops) + 1), op)
         return {"prop": ID, "engine": "H", "ops": ops}
     if k < 7:
         nthreads = g.choice((2, 2, 3, 3, 4))
@@ -145,6 +159,11 @@ def generate(rseed, tier, idx):
         if sharing == "different":
             for _ in range(nthreads):
                 clients.append([_pure_op(g, cheap=g.random() < 0.8) for _ in range(g.randint(1, 3))])
+            if g.random() < 0.3:
+                fam = gen.alias_family(g)
+                t0, b0, large0 = _pair(g, cheap=True)
+                for k, mem in enumerate(fam[:nthreads]):
+                    clients[k].insert(g.randrange(len(clients[k]) + 1), {"op": "make", "t": enc(mem), "b": b0, "large": large0, "mode": 0, "vr": False})
         elif sharing == "same":
             ops = [_pure_op(g, cheap=g.random() < 0.8) for _ in range(g.randint(1, 2))]
             clients = [copy.deepcopy(ops) for _ in range(nthreads)]
@@ -190,7 +209,7 @@ def run_cli_op(op):
 
 
 def _run_any(op, ctx, root):
-    sop = {k: v for k, v in op.items() if k != "again"}
+    sop = {k: v for k, v in op.items() if k not in ("again", "alias")}
     if sop["op"] == "cli":
         return run_cli_op(sop)
     with apiops.Effects(root) as fx:
@@ -247,7 +266,7 @@ def _exec_H(trace):
     model = apiops.Ctx()
     expect = []
     for op in trace["ops"]:
-        sop = {k: v for k, v in op.items() if k != "again"}
+        sop = {k: v for k, v in op.items() if k not in ("again", "alias")}
         if sop["op"] == "newpair":
             model.slot_spec[sop["slot"]] = {"t": sop["t"], "b": sop["b"], "large": sop.get("large", False)}
         eq = sop if sop["op"] == "cli" else apiops.fresh_equivalent(sop, model)
@@ -272,6 +291,8 @@ def _exec_H(trace):
                 bump("H_slot_reuse")
             if op.get("again"):
                 bump("H_repeat_same_op")
+            if op.get("alias"):
+                bump("H_alias_family_ops")
             if changed_seen:
                 bump("H_probes_after_change")
                 nontrivial = True
